@@ -79,11 +79,20 @@ func (x *Exec) doCall(st *State, i *ssa.Call) bool {
 	for k, a := range i.Call.Args {
 		args[k] = x.val(st, a)
 	}
+	var pre *Snapshot
+	if x.con != nil && len(x.con.After) > 0 && len(st.frames) == 1 {
+		pre = st.snapshot()
+	}
 	res, inlined := x.callCommon(st, &i.Call, args, i, false)
 	if inlined {
 		return true // a new frame was pushed; execution continues in the callee
 	}
 	fr.vals[i] = res
+	if pre != nil && x.lastAfterIns != ssa.Instruction(i) {
+		// calls handled by an intrinsic or left symbolic can carry after-clauses too
+		name := x.commonName(&i.Call)
+		x.applyAfter(st, fmt.Sprintf("%s.%d", name, x.callOrdinal(i, name)), pre, i.Pos())
+	}
 	return true
 }
 
@@ -352,6 +361,15 @@ func (x *Exec) applyContract(st *State, con *Contract, cname string, pnames []st
 	if len(con.Postulates) > 0 {
 		x.v.notePostulate(cname)
 	}
+	x.applyAfter(st, site, pre, pos)
+	x.lastAfterIns = ins
+	x.v.noteUse(x.shortFn(x.fn), cname, con)
+	return res
+}
+
+// applyAfter runs the `after <site> ...` clauses of the function under verification (ghost assignments,
+// ghost assertions, listed separation assumptions) once the call at that site has returned.
+func (x *Exec) applyAfter(st *State, site string, pre *Snapshot, pos token.Pos) {
 	// separation facts assumed after this call site by the function under verification
 	if x.con != nil && len(st.frames) == 1 {
 		for _, cl := range x.con.After[site] {
@@ -386,8 +404,6 @@ func (x *Exec) applyContract(st *State, con *Contract, cname string, pnames []st
 			x.v.noteRelies(x.shortFn(x.fn)+" after "+site, []*Clause{cl})
 		}
 	}
-	x.v.noteUse(x.shortFn(x.fn), cname, con)
-	return res
 }
 
 func lastSeg(s string) string {
